@@ -14,6 +14,9 @@ missed = 0
 for sid in ids:
     d = f"/verif/seeded/{sid}"
     meta = json.load(open(f"{d}/meta.json"))
+    if meta.get("obsolete"):
+        print(f"{sid}: obsolete - {meta['obsolete'][:120]}")
+        continue
     tmp = tempfile.mkdtemp(prefix="seedr-", dir="/tmp")
     try:
         subprocess.run(f"git -C /repo archive HEAD | tar -x -C {tmp}", shell=True, check=True)
